@@ -2,6 +2,7 @@ package semverops
 
 import (
 	"math/rand"
+	"regexp"
 	"strings"
 
 	"deps.dev/util/semver"
@@ -20,7 +21,7 @@ func num(r *rand.Rand) string {
 
 func smallNum(r *rand.Rand) string { return Pick(r, "0", "1", "2", "3", "10") }
 
-var identPool = []string{"0", "1", "2", "10", "01", "00", "a", "A", "b", "alpha", "beta", "rc", "RC", "a-b", "x-1", "1a", "a1", "-", "--", "2147483647", "2147483648", "9223372036854775807", "9223372036854775808", "0a", "x", "X", "pre", "dev"}
+var identPool = []string{"0", "1", "2", "10", "01", "00", "a", "A", "b", "alpha", "beta", "rc", "RC", "a-b", "x-1", "1a", "a1", "-", "--", "2147483647", "2147483648", "9223372036854775807", "9223372036854775808", "0a", "x", "X", "pre", "dev", "Beta", "beta", "Alpha", "ALPHA", "rC", "b-A", "B-a", "Zeta", "zeta", "Z", "z", "aZ", "az"}
 
 func ident(r *rand.Rand) string { return identPool[r.Intn(len(identPool))] }
 
@@ -110,7 +111,7 @@ func GenPyPI(r *rand.Rand) string {
 		s += Pick(r, ".dev", "dev", "-dev", "_dev", ".DEV") + Pick(r, "", "0", "1", "2")
 	}
 	if r.Intn(5) == 0 {
-		s += "+" + Pick(r, "a", "A", "1", "01", "a.1", "1.a", "a-b", "ab", "2", "a_1", "1.2", "abc.1.x", "ABC", "abc", "18446744073709551616")
+		s += "+" + Pick(r, "a", "A", "1", "01", "a.1", "1.a", "a-b", "ab", "2", "a_1", "1.2", "abc.1.x", "ABC", "abc", "18446744073709551616", "a-b_c", "ubuntu-20_04", "Ubuntu.1", "x_y-z.1", "CPU")
 	}
 	if r.Intn(40) == 0 {
 		s = Pick(r, " ", "\t", " ") + s + Pick(r, " ", "\n", " ", "")
@@ -276,8 +277,21 @@ func cverNums(r *rand.Rand, k int) string {
 	return strings.Join(p, ".")
 }
 
+// OperandPool, when non-empty, makes GenCVersion reuse these operand versions most of the
+// time, so that two constraints share end points (equal bounds with different open/closed
+// flags, abutting and nested spans). Set by the harness around a generation call.
+var OperandPool []string
+
+var operandRE = regexp.MustCompile(`v?[0-9xX*]+(\.[0-9xX*]+)*(-[0-9A-Za-z.-]+)?`)
+
+// Operands extracts the version-like operands of a constraint string.
+func Operands(c string) []string { return operandRE.FindAllString(c, -1) }
+
 // GenCVersion generates an operand version for a constraint: partial, wildcard, prerelease.
 func GenCVersion(r *rand.Rand, sys semver.System) string {
+	if len(OperandPool) > 0 && r.Intn(10) < 6 {
+		return OperandPool[r.Intn(len(OperandPool))]
+	}
 	k := 3
 	if r.Intn(3) == 0 {
 		k = 1 + r.Intn(2)
@@ -314,10 +328,10 @@ func GenCVersion(r *rand.Rand, sys semver.System) string {
 	if k < 3 && r.Intn(3) == 0 {
 		s += "." + Pick(r, "x", "X", "*")
 	} else if r.Intn(12) == 0 {
-		s = Pick(r, "*", "x", "1.x", "1.*.2", "x.1")
+		s = Pick(r, "*", "x", "1.x", "1.*.2", "x.1", "x.1.2", "*.0.0", "X.2.3", "x.x.1", "1.x.x", "*.*.*", "0.x.0")
 	}
 	if k == 3 && r.Intn(3) == 0 {
-		s += "-" + Pick(r, "a", "b", "1", "a.1", "0", "rc.2", "A")
+		s += "-" + Pick(r, "a", "b", "1", "a.1", "0", "rc.2", "A", "Zeta", "zeta", "Beta", "rc", "RC.1")
 		if sys == semver.NuGet && r.Intn(6) == 0 {
 			s += "*"
 		}
